@@ -389,13 +389,26 @@ pub fn execute(s: &ForScn, ctx: &mut Ctx) {
 
 fn by_path(ctx: &mut Ctx, s: &ForScn, shp: &[u8], shx: &[u8], has_null: bool, lsite: &str) {
     let dir = crate::scratch_dir();
-    let base = dir.join(format!("foreign-{}", crate::prng::fnv(shp) ^ crate::prng::fnv(shx)));
+    let h = crate::prng::fnv(shp) ^ crate::prng::fnv(shx);
+    let base = dir.join(format!("foreign-{}", h));
     let shp_path = base.with_extension("shp");
-    if std::fs::write(&shp_path, shp).is_err() || std::fs::write(base.with_extension("shx"), shx).is_err() {
+    // half of them as a data set of symbolic links into a store whose files have other names
+    // (content-addressed trees): the index is the .shx next to the path the caller passes
+    let linked = h % 2 == 0;
+    let (store_shp, store_shx) = (dir.join(format!("store-{}-a", h)), dir.join(format!("store-{}-b", h)));
+    let written = if linked {
+        std::fs::write(&store_shp, shp).is_ok()
+            && std::fs::write(&store_shx, shx).is_ok()
+            && std::os::unix::fs::symlink(&store_shp, &shp_path).is_ok()
+            && std::os::unix::fs::symlink(&store_shx, base.with_extension("shx")).is_ok()
+    } else {
+        std::fs::write(&shp_path, shp).is_ok() && std::fs::write(base.with_extension("shx"), shx).is_ok()
+    };
+    if !written {
         ctx.fail("HARNESS", "scratch", "foreign", "cannot write the scratch files".to_string());
         return;
     }
-    ctx.stats.reach("foreign-by-path");
+    ctx.stats.reach(if linked { "foreign-by-path-through-links" } else { "foreign-by-path" });
     let to_items = |v: Vec<Geom>| v.into_iter().map(Ok).collect::<Vec<Item>>();
     let generic = guarded(|| shapefile::read_shapes(&shp_path).map_err(|e| classify(&e)));
     match &generic {
@@ -433,6 +446,8 @@ fn by_path(ctx: &mut Ctx, s: &ForScn, shp: &[u8], shx: &[u8], has_null: bool, ls
     }
     let _ = std::fs::remove_file(&shp_path);
     let _ = std::fs::remove_file(base.with_extension("shx"));
+    let _ = std::fs::remove_file(&store_shp);
+    let _ = std::fs::remove_file(&store_shx);
 }
 
 /// A geometry generated directly (not through constructors): any part structure incl. empty.
